@@ -128,8 +128,54 @@ func rowidRule(c *Ctx, rule, wname string, addRow *ssa.Function, typ *types.Name
 			loads = append(loads, u)
 		}
 	})
+	if len(loads) == 0 {
+		// one level of indirection: AddRow delegates to a helper that does the work and returns the id
+		var frames []*ssa.Call
+		allInstrs(addRow, func(i ssa.Instruction) {
+			call, ok := i.(*ssa.Call)
+			if !ok {
+				return
+			}
+			g := calleeFunc(&call.Call)
+			if g == nil || !c.w.inModule(g) || g.Blocks == nil || g.Signature.Results().Len() != 2 {
+				return
+			}
+			n := 0
+			allInstrs(g, func(j ssa.Instruction) {
+				if u, ok := j.(*ssa.UnOp); ok && u.Op == token.MUL && isCtrAddr(u.X) {
+					n++
+				}
+			})
+			if n == 1 {
+				frames = append(frames, call)
+			}
+		})
+		if len(frames) == 1 {
+			call := frames[0]
+			okDeleg := true
+			allInstrs(addRow, func(i ssa.Instruction) {
+				ret, ok := i.(*ssa.Return)
+				if !ok || len(ret.Results) != 2 || isRecoverBlockReturn(ret) {
+					return
+				}
+				rv := retVals(ret)
+				if isNilConst(rv[1]) || peel(rv[1]) == ssa.Value(extractOf(call, 1)) {
+					if e, ok := peel(rv[0]).(*ssa.Extract); !ok || e.Tuple != ssa.Value(call) || e.Index != 0 {
+						if !isNilConst(rv[1]) {
+							return
+						}
+						okDeleg = false
+					}
+				}
+			})
+			c.r.check(okDeleg, rule, wname+": delegate", "AddRow returns the id its helper "+safeFname(calleeFunc(&call.Call))+" returns",
+				"AddRow returns something other than the id returned by the helper that adds the row", c.w.ipos(call))
+			rowidRule(c, rule, wname, calleeFunc(&call.Call), typ)
+			return
+		}
+	}
 	if len(loads) != 1 {
-		c.r.undecided(rule, wname+": id", fmt.Sprintf("AddRow loads the row counter %d times; the rule expects the id to be read once", len(loads)), site)
+		c.r.undecided(rule, wname+": id", fmt.Sprintf("%s loads the row counter %d times; the rule expects the id to be read once", safeFname(addRow), len(loads)), site)
 		return
 	}
 	id := ssa.Value(loads[0])
